@@ -150,13 +150,13 @@ type c04Case struct {
 }
 
 type c04Result struct {
-	violation  string
-	bothDone   bool
-	edited     bool
-	knownVer   bool // exactly the version-confusion finding
-	v0Trunc    bool
-	disagree   []string
-	actLens    []int
+	violation string
+	bothDone  bool
+	edited    bool
+	knownVer  bool // exactly the version-confusion finding
+	v0Trunc   bool
+	disagree  []string
+	actLens   []int
 }
 
 // actIndex maps (direction, ordinal) to the act number: initiator messages are
